@@ -93,11 +93,16 @@ def addConnectionID (q : List Entry) (e : Entry) : Except Err (List Entry) :=
 
 /-! ### updateConnectionID -/
 
+/-- `if h.activeStatelessResetToken != nil { h.removeStatelessResetToken(*…) }` -/
+def rmTokOpt : Option Bytes → List Ev
+  | some t => [Ev.rmTok t]
+  | none => []
+
 /-- `draw` is the value of `rand.Int31n(PacketsPerConnectionID)` (an input). -/
 def Manager.updateConnectionID (m : Manager) (draw : Nat) : Manager × List Ev × Res :=
   if m.closed then (m, [], .panic)                  -- assertNotClosed
   else
-    let ev := Ev.retire m.activeSeq :: (match m.activeTok with | some t => [Ev.rmTok t] | none => [])
+    let ev := Ev.retire m.activeSeq :: rmTokOpt m.activeTok
     let m1 := { m with highestRetired := max m.highestRetired m.activeSeq }
     match m1.queue with
     | [] => (m1, ev, .panic)                        -- h.queue[0] on an empty queue
@@ -119,28 +124,38 @@ def Manager.retireNow (m : Manager) (seq : Nat) : Bool :=
 def retireProbingEvs (l : List (Nat × Entry)) : List Ev :=
   l.flatMap fun pe => [Ev.retire pe.2.seq, Ev.rmTok pe.2.tok]
 
+/-- first Retire-Prior-To loop of `add`: path-probing IDs below `rpt` -/
+def Manager.retireProbingBelow (m : Manager) (rpt : Nat) : Manager × List Ev :=
+  ({ m with probing := m.probing.filter fun pe => ¬ pe.2.seq < rpt },
+   retireProbingEvs (m.probing.filter fun pe => pe.2.seq < rpt))
+
+/-- second Retire-Prior-To block of `add`: queued IDs below `rpt` (not the active one) -/
+def Manager.retireQueueBelow (m : Manager) (rpt : Nat) : Manager × List Ev :=
+  if rpt > m.highestRetired then
+    ({ m with queue := m.queue.filter (fun e => e.seq ≥ rpt), highestRetired := rpt },
+     (m.queue.filter fun e => ¬ e.seq ≥ rpt).map (fun e => Ev.retire e.seq))
+  else (m, [])
+
 /-- `add` -/
 def Manager.add (m : Manager) (seq rpt : Nat) (id tok : Bytes) (draw : Nat) : Manager × List Ev × Res :=
   if m.activeID = [] then (m, [], .err .protocolViolation)
   else if m.probing.any (fun pe => pe.2.seq == seq) then (m, [], .ok)
   else if m.retireNow seq then (m, [.retire seq], .ok)
   else
-    -- retire path-probing IDs below Retire Prior To
-    let ev1 := retireProbingEvs (m.probing.filter fun pe => pe.2.seq < rpt)
-    let m1 := { m with probing := m.probing.filter fun pe => ¬ pe.2.seq < rpt }
-    -- retire queued IDs below Retire Prior To
-    let ev2 := if rpt > m1.highestRetired then (m1.queue.filter fun e => ¬ e.seq ≥ rpt).map (fun e => Ev.retire e.seq) else []
-    let m2 := if rpt > m1.highestRetired then
-        { m1 with queue := m1.queue.filter (fun e => e.seq ≥ rpt), highestRetired := rpt } else m1
-    if seq = m2.activeSeq then (m2, ev1 ++ ev2, .ok)
+    let r1 := m.retireProbingBelow rpt
+    let r2 := r1.1.retireQueueBelow rpt
+    let m2 := r2.1
+    let ev := r1.2 ++ r2.2
+    if seq = m2.activeSeq then (m2, ev, .ok)
     else match addConnectionID m2.queue ⟨seq, id, tok⟩ with
-      | .error e => (m2, ev1 ++ ev2, .err e)
+      | .error e => (m2, ev, .err e)
       | .ok q =>
         let m3 := { m2 with queue := q }
         if m3.activeSeq < rpt then
+          -- retire the active connection ID
           let r := m3.updateConnectionID draw
-          (r.1, ev1 ++ ev2 ++ r.2.1, r.2.2)
-        else (m3, ev1 ++ ev2, .ok)
+          (r.1, ev ++ r.2.1, r.2.2)
+        else (m3, ev, .ok)
 
 /-- number of path-probing IDs that `add` retires because of Retire Prior To (they come out of a Go map
     iteration, so the oracle compares that group of callbacks up to order) -/
@@ -167,7 +182,7 @@ def Manager.addFromPreferredAddress (m : Manager) (id tok : Bytes) : Manager × 
 
 def Manager.close (m : Manager) : Manager × List Ev :=
   ({ m with closed := true },
-   (match m.activeTok with | some t => [Ev.rmTok t] | none => []) ++ m.probing.map (fun pe => Ev.rmTok pe.2.tok))
+   rmTokOpt m.activeTok ++ m.probing.map (fun pe => Ev.rmTok pe.2.tok))
 
 def Manager.changeInitialConnID (m : Manager) (id : Bytes) : Manager × Res :=
   if m.activeSeq ≠ 0 then (m, .panic) else ({ m with activeID := id }, .ok)
